@@ -126,15 +126,18 @@ class Ctx:
 
     def run_case_shards(self, d, timeout=1500):
         files = sorted(glob.glob(os.path.join(d, "cases_*.v")))
-        procs = []
-        for f in files:
-            procs.append((f, subprocess.Popen(["timeout", str(timeout), "coqc", "-Q", COQ, "GS", f], cwd=d,
-                                              stdout=subprocess.PIPE, stderr=subprocess.STDOUT, text=True)))
+        # at most 8 evaluations at a time: a shard of several hundred documents can take gigabytes under vm_compute
+        outs = []
+        for i in range(0, len(files), 8):
+            procs = [(f, subprocess.Popen(["timeout", str(timeout), "coqc", "-Q", COQ, "GS", f], cwd=d,
+                                          stdout=subprocess.PIPE, stderr=subprocess.STDOUT, text=True)) for f in files[i:i + 8]]
+            for f, p in procs:
+                out, _ = p.communicate()
+                outs.append((f, p.returncode, out))
         results = {}
-        for f, p in procs:
-            out, _ = p.communicate()
-            if p.returncode != 0:
-                raise CheckError(f"model evaluation failed on {os.path.basename(f)}:\n{out[-2000:]}")
+        for f, rc, out in outs:
+            if rc != 0:
+                raise CheckError(f"model evaluation failed on {os.path.basename(f)} (exit {rc}):\n{out[-2000:]}")
             m = re.search(r"M\s*=\s*(.*?)\n\s*:", out, flags=re.S)
             if not m:
                 raise CheckError(f"cannot parse model output of {f}: {out[-500:]}")
